@@ -2,6 +2,8 @@
 
 package xml
 
+import "github.com/tdewolff/minify/v2"
+
 // Harnesses for C06 (XML infoset preservation) and the XML parts of C09/C10/C14.
 
 func verifXMLRun(in []byte, keep bool) ([]byte, error) {
@@ -135,7 +137,7 @@ func VerifXMLProlog(n int) {
 	verifXMLCheck(buf, total)
 }
 
-// VerifXMLTotal: arbitrary bytes (all 256 values): no panic, sentinel restored; accepted => output accepted again.
+// VerifXMLTotal: arbitrary bytes (all 256 values): no panic, terminates, sentinel byte restored (C10).
 func VerifXMLTotal(n int) {
 	buf := vBytes("in", n+1)
 	in := buf[:n]
@@ -144,11 +146,6 @@ func VerifXMLTotal(n int) {
 	vOutput("out", out)
 	vOutputBool("err", err != nil)
 	vAssert(buf[n] == g0, "byte behind the caller's slice restored")
-	if err == nil {
-		o2 := append(make([]byte, 0, len(out)+1), out...)
-		_, err2 := verifXMLRun(o2, false)
-		vAssert(err2 == nil, "output of a successful run is accepted again")
-	}
 	vReach("end")
 }
 
@@ -179,4 +176,42 @@ func VerifXMLAttrAny(n int) {
 	v := vBytes("v", n)
 	buf, total := verifBuild([]byte("<a b=\""), v, []byte("\"/>"))
 	verifXMLCheck(buf, total)
+}
+
+// VerifXMLBytesContract: (*M).Bytes on arbitrary bytes: error => original data unchanged (C10).
+func VerifXMLBytesContract(n int) {
+	buf := vBytes("in", n+1)
+	in := buf[:n] // one spare byte of capacity: the minifier works on the caller's array
+	orig := append([]byte(nil), in...)
+	m := minify.New()
+	m.AddFunc("text/xml", Minify)
+	out, err := m.Bytes("text/xml", in)
+	vOutput("out", out)
+	vOutputBool("err", err != nil)
+	if err != nil && !rxBytesEq(out, orig) {
+		vKnown("C10-F2") // recorded finding: the minifier rewrites the caller's array in place before it meets the error
+	}
+	vReach("end")
+}
+
+// VerifXMLReaccept (C09): arbitrary bytes; whenever the minifier returns without error, its output is accepted again.
+func VerifXMLReaccept(n int) {
+	buf := vBytes("in", n+1)
+	in := buf[:n]
+	out, err := verifXMLRun(in, vBool("keepws"))
+	vOutput("out", out)
+	vOutputBool("err", err != nil)
+	if err == nil {
+		o2 := append(make([]byte, 0, len(out)+1), out...)
+		_, err2 := verifXMLRun(o2, false)
+		if err2 != nil {
+			for _, c := range out {
+				if c == 0 {
+					vKnown("C09-F23") // recorded finding: &#0; is decoded into a NUL byte, which the lexer rejects
+				}
+			}
+			vFail("output of a successful run is accepted again")
+		}
+	}
+	vReach("end")
 }
